@@ -22,7 +22,7 @@ func init() {
 			if tier == "quick" {
 				return 384
 			}
-			return 2400
+			return 7200
 		},
 		Run:      runC02,
 		Required: []string{"epochs", "epochs.parallel", "epochs.multi_species", "species.founded", "species.survived", "species.extinct"},
